@@ -316,19 +316,34 @@ fn journal_outputs(case: &Case) -> (Vec<EvmState>, State<revm::database_interfac
     (out, evm.ctx.journaled_state.database)
 }
 
+const COLD_SLOTS: u64 = 20;
+
 fn concurrent_cache(iter_seed: u64, r: &mut Rng, rep: &mut ShardReport) {
     let mut params = lifecycle_params();
     params.txs = (4, 12);
     params.invalid_pct = 0;
-    let case = generate(&params, r.next());
+    let mut case = generate(&params, r.next());
+    // many non-zero "cold" slots per contract: there is always an uncached slot whose fetch is in
+    // flight when a commit lands, and a stale value is distinguishable from the zero a reset gives
+    {
+        let mut db = (*case.db).clone();
+        for (a, seed) in db.accounts.iter_mut() {
+            if seed.code.is_some() {
+                for s in 0..COLD_SLOTS {
+                    seed.storage.entry(U256::from(s)).or_insert(U256::from(0xD000 + s + (a.as_slice()[19] as u64) * 256));
+                }
+            }
+        }
+        case.db = Arc::new(db);
+    }
     let (states, mut reference) = journal_outputs(&case);
     let addrs = probe_addrs(&case);
-    let slots = probe_slots(&case);
+    let slots: Vec<U256> = (0..COLD_SLOTS).map(U256::from).collect();
     // slow, fault-free database so that readers sit between fetch and insert while commits land
     let mut plan = FaultPlan::default();
-    if r.chance(2, 3) {
+    if r.chance(4, 5) {
         for a in &addrs {
-            if r.chance(1, 3) {
+            if r.chance(1, 2) {
                 for s in &slots {
                     plan.latency_us.insert(Key::Storage(*a, *s), *r.pick(&[50u64, 200, 800]));
                 }
@@ -385,6 +400,7 @@ fn concurrent_cache(iter_seed: u64, r: &mut Rng, rep: &mut ShardReport) {
                     let _ = view.basic_ref(*a);
                 }
                 commit.commit(st.clone());
+                obs().signal_commit();
                 if !cfg!(miri) {
                     std::thread::sleep(std::time::Duration::from_micros(r.below(400)));
                 }
